@@ -119,9 +119,9 @@ class C05(common.Prop):
     case_type = 'case5'
     corr_fn = 'corr_ok5'
     fail_fn = 'prop_fail5'
-    shard = 150
+    shard = 100
     quick_cases = 1000
-    thorough_cases = 16000
+    thorough_cases = 8000
     extended_cases = 3000
     fail_text = {1: 'shorthand and longhand are read as different graphs (no renumbering / not the identity numbering)',
                  2: 'the reader raised an exception on the shorthand although the longhand is read',
@@ -158,7 +158,7 @@ class C05(common.Prop):
             if not (G.has_node_mult(a) or G.has_branch_mult(a)):
                 continue
             c = case_of(a, braces, mode)
-            if len(c['long']) > 1500:
+            if len(c['long']) > 500:
                 continue
             rnd.append(c)
         out += rnd
